@@ -2149,8 +2149,10 @@ class RepeatingEngine(Engine):
             return experiment.model.codes.restartCodes['RestartMaxAttemptsExceeded']
 
         # VV: @tag:RestartEngines
-        if reason == experiment.model.codes.exitReasons["ResourceExhausted"] and self.restarts == 0:
+        if reason == experiment.model.codes.exitReasons["ResourceExhausted"] and self.restarts == 0 \
+                and reason in self.job.workflowAttributes.get('restartHookOn', []):
             # VV: A RepeatingEngine will only restart once and only if its last exit-reason was ResourceExhausted
+            #     (and the component lists ResourceExhausted as a reason for restarting, as it does by default)
             self.log.info("Attempting restart of interrupted last task execution")
 
             try:
